@@ -8,6 +8,8 @@
 
    Modes:  lock <seed> <sessions>   single-stream encoders, random ctl histories, all PCM formats, all signals
            ms <seed> <sessions>     multistream / projection encoders with their decoders
+           fill <seed> <level>      multi-frame VBR packets nearly filling max_data_bytes (sub-frames >= 253 bytes, +-8 sweep)
+           mssweep <seed> <level>   multistream / projection, max_data_bytes 1..600 exhaustively at high rates
    Output: "V <what> | <expected> | <observed> | <context>" for every violated predicate,
            "# dist ..." distribution lines, "# lock cases=N violations=K".  All randomness from the seed. */
 #include "vcommon.h"
@@ -169,6 +171,130 @@ static void run_lock(uint64_t seed, long sessions)
    }
 }
 
+/* one encode + parse + decode at the encoder's own rate/channels; returns the encoder's return value */
+static int encode_check(OpusEncoder *e, OpusDecoder *dec, const float *x, int afs, int fs, int ch, int out, const char *ctx)
+{
+   static float outf[5760 * 2];
+   unsigned char *pkt = (unsigned char *)malloc(out > 0 ? out : 1);
+   opus_uint32 erng = 0, drng = 0; char exps[96], obs[160]; int ret, got;
+   ret = opus_encode_float(e, x, afs, pkt, out);
+   g_cases++;
+   if (ret < 0) {
+      d_err[-ret < 8 ? -ret : 0]++;
+      if (!(ret == OPUS_BUFFER_TOO_SMALL && out == 1 && fs == afs * 10)) { snprintf(obs, sizeof obs, "%s", verr(ret)); viol("encode-fails", "success (valid arguments, >= 2 bytes of space)", obs, ctx); }
+      free(pkt); return ret;
+   }
+   if (ret == 0 || ret > out) { snprintf(obs, sizeof obs, "ret=%d", ret); viol("ret-range", "1 <= ret <= max_data_bytes", obs, ctx); free(pkt); return ret; }
+   opus_encoder_ctl(e, OPUS_GET_FINAL_RANGE(&erng));
+   if (opus_packet_get_nb_samples(pkt, ret, fs) != afs) {
+      snprintf(exps, sizeof exps, "packet duration %d samples", afs); snprintf(obs, sizeof obs, "%d samples", opus_packet_get_nb_samples(pkt, ret, fs));
+      viol("duration", exps, obs, ctx);
+   }
+   d_mode[(pkt[0] & 0x80) ? 2 : ((pkt[0] & 0x60) == 0x60) ? 1 : 0]++; d_code[pkt[0] & 3]++;
+   got = opus_decode_float(dec, pkt, ret, outf, 5760, 0);
+   opus_decoder_ctl(dec, OPUS_GET_FINAL_RANGE(&drng));
+   g_dec++;
+   if (got != afs) { snprintf(exps, sizeof exps, "%d samples", afs); snprintf(obs, sizeof obs, "opus_decode_float -> %d", got); viol("decode-count", exps, obs, ctx); }
+   else if (drng != erng) { snprintf(exps, sizeof exps, "decoder final range %08x (encoder's)", erng); snprintf(obs, sizeof obs, "%08x, packet %d bytes toc %02x", drng, ret, pkt[0]); viol("final-range", exps, obs, ctx); }
+   (void)ch; free(pkt);
+   return ret;
+}
+
+/* multi-frame packets that nearly fill the buffer: VBR, 3..6 sub-frames of >= 253 bytes and unequal size, max_data_bytes
+   swept +-8 around the size a probe packet had (sum of sub-frames + worst-case repacketiser header ~ max_data_bytes) */
+static void run_fill(uint64_t seed, int level)
+{
+   vrng r; int fi, ch, di, ci, ti, mi;
+   static const int tgt[] = {255, 262, 300, 420, 640};
+   r.s = seed * 0xD6E8FEB86659FD93ULL + 31;
+   for (fi = 2; fi < 5; fi++) for (ch = 1; ch <= 2; ch++) for (di = 5; di < 9; di++) for (ci = 0; ci < 2; ci++) for (mi = 0; mi < 2; mi++) for (ti = 0; ti < 5; ti++) {
+      static float x[5760 * 2];
+      int fs = FSS[fi], err, afs = fs / 400 * DUR400[di], k, probe, nb = DUR400[di] / 8, br; double phase = 0; char ctx[256];
+      OpusEncoder *e; OpusDecoder *dec;
+      if (!level && ((fi + ch + di + ci + mi + ti + (int)(seed % 3)) % 3) != 0) continue;
+      e = opus_encoder_create(fs, ch, mi ? OPUS_APPLICATION_AUDIO : OPUS_APPLICATION_RESTRICTED_LOWDELAY, &err);
+      dec = opus_decoder_create(fs, ch, &err);
+      if (!e || !dec) continue;
+      g_hl = 0; g_hist[0] = 0;
+      if (mi) CTL(e, "fmode", OPUS_SET_FORCE_MODE, vchance(&r, 50) ? MODE_CELT_ONLY : MODE_HYBRID);
+      CTL(e, "vbr", OPUS_SET_VBR, 1); CTL(e, "cvbr", OPUS_SET_VBR_CONSTRAINT, ci);
+      br = tgt[ti] * 400 + (int)vbelow(&r, 1200);
+      CTL(e, "br", OPUS_SET_BITRATE, br);
+      for (k = 0; k < 4; k++) {
+         int out = IMIN(1500, nb * (tgt[ti] + 1) + (k & 1));
+         gen_pcm(&r, 2, x, afs, ch, fs, &phase);
+         snprintf(ctx, sizeof ctx, "fill seed=%llu fs=%d ch=%d app=%d frame=%d out=%d br=%d cvbr=%d", (unsigned long long)seed, fs, ch, mi, afs, out, br, ci);
+         encode_check(e, dec, x, afs, fs, ch, out, ctx);
+      }
+      gen_pcm(&r, 2, x, afs, ch, fs, &phase);
+      snprintf(ctx, sizeof ctx, "fill seed=%llu fs=%d ch=%d app=%d frame=%d out=4000 br=%d cvbr=%d (probe)", (unsigned long long)seed, fs, ch, mi, afs, br, ci);
+      probe = encode_check(e, dec, x, afs, fs, ch, 4000, ctx);
+      if (probe > 3 * 253)
+         for (k = -8; k <= 8; k++) {
+            int out = IMAX(1, IMIN(4000, probe + k));
+            gen_pcm(&r, 2, x, afs, ch, fs, &phase);
+            snprintf(ctx, sizeof ctx, "fill seed=%llu fs=%d ch=%d app=%d frame=%d out=%d br=%d cvbr=%d (probe %d%+d)", (unsigned long long)seed, fs, ch, mi, afs, out, br, ci, probe, k);
+            encode_check(e, dec, x, afs, fs, ch, out, ctx);
+         }
+      opus_encoder_destroy(e); opus_decoder_destroy(dec);
+   }
+}
+
+/* multistream / projection with their decoders: max_data_bytes swept exhaustively over 1..600 at high rates */
+static void run_mssweep(uint64_t seed, int level)
+{
+   vrng r; int li, vi, fi, di, out;
+   static const int lay[][2] = {{1, 4}, {1, 3}, {1, 6}, {2, 4}, {3, 4}, {1, 8}, {0, 2}};   /* family, channels */
+   r.s = seed * 0x9FB21C651E98DF25ULL + 43;
+   for (li = 0; li < 7; li++) for (vi = 0; vi < 2; vi++) for (fi = 0; fi < (level ? 2 : 1); fi++) for (di = 0; di < (level ? 2 : 1); di++) {
+      static float x[5760 * 8]; static float outf[5760 * 8];
+      int fs = fi ? 16000 : 48000, afs = di ? fs / 100 : fs / 50, fam = lay[li][0], ch = lay[li][1], err = 0, streams = 0, coupled = 0, br;
+      unsigned char mapping[255]; double phase = 0;
+      OpusMSEncoder *ms = NULL; OpusProjectionEncoder *pj = NULL; OpusMSDecoder *md = NULL; OpusProjectionDecoder *pd = NULL;
+      g_hl = 0; g_hist[0] = 0;
+      if (fam == 3) pj = opus_projection_ambisonics_encoder_create(fs, ch, 3, &streams, &coupled, OPUS_APPLICATION_AUDIO, &err);
+      else ms = opus_multistream_surround_encoder_create(fs, ch, fam, &streams, &coupled, mapping, OPUS_APPLICATION_AUDIO, &err);
+      if (!ms && !pj) continue;
+      if (ms) md = opus_multistream_decoder_create(fs, ch, streams, coupled, mapping, &err);
+      else {
+         opus_int32 msz = 0; unsigned char *mat;
+         opus_projection_encoder_ctl(pj, OPUS_PROJECTION_GET_DEMIXING_MATRIX_SIZE(&msz));
+         mat = (unsigned char *)malloc(msz > 0 ? msz : 1);
+         opus_projection_encoder_ctl(pj, OPUS_PROJECTION_GET_DEMIXING_MATRIX(mat, msz));
+         pd = opus_projection_decoder_create(fs, ch, streams, coupled, mat, msz, &err);
+         free(mat);
+      }
+      br = vi == 0 && vchance(&r, 30) ? OPUS_BITRATE_MAX : 150000 * streams;
+      if (ms) { opus_multistream_encoder_ctl(ms, OPUS_SET_BITRATE(br)); opus_multistream_encoder_ctl(ms, OPUS_SET_VBR(vi)); opus_multistream_encoder_ctl(ms, OPUS_SET_COMPLEXITY(4)); }
+      else { opus_projection_encoder_ctl(pj, OPUS_SET_BITRATE(br)); opus_projection_encoder_ctl(pj, OPUS_SET_VBR(vi)); opus_projection_encoder_ctl(pj, OPUS_SET_COMPLEXITY(4)); }
+      for (out = 1; out <= 600; out++) {
+         unsigned char *pkt = (unsigned char *)malloc(out); int ret, small, got; opus_uint32 erng = 0, drng = 0; char ctx[256], exps[96], obs[160];
+         gen_pcm(&r, 2, x, afs, ch, fs, &phase);
+         ret = ms ? opus_multistream_encode_float(ms, x, afs, pkt, out) : opus_projection_encode_float(pj, x, afs, pkt, out);
+         g_cases++;
+         snprintf(ctx, sizeof ctx, "mssweep seed=%llu fam=%d fs=%d ch=%d streams=%d coupled=%d frame=%d out=%d vbr=%d br=%d", (unsigned long long)seed, fam, fs, ch, streams, coupled, afs, out, vi, br);
+         small = streams * 2 - 1 + (fs / afs == 10 ? streams : 0);
+         if (ret < 0) {
+            d_err[-ret < 8 ? -ret : 0]++;
+            if (!(ret == OPUS_BUFFER_TOO_SMALL && out < small)) { snprintf(obs, sizeof obs, "%s", verr(ret)); snprintf(exps, sizeof exps, "success (max_data_bytes >= %d)", small); viol("ms-encode-fails", exps, obs, ctx); }
+            free(pkt); continue;
+         }
+         if (ret == 0 || ret > out) { snprintf(obs, sizeof obs, "ret=%d", ret); viol("ms-ret-range", "1 <= ret <= max_data_bytes", obs, ctx); free(pkt); continue; }
+         if (ms) opus_multistream_encoder_ctl(ms, OPUS_GET_FINAL_RANGE(&erng)); else opus_projection_encoder_ctl(pj, OPUS_GET_FINAL_RANGE(&erng));
+         got = md ? opus_multistream_decode_float(md, pkt, ret, outf, 5760, 0) : opus_projection_decode_float(pd, pkt, ret, outf, 5760, 0);
+         if (md) opus_multistream_decoder_ctl(md, OPUS_GET_FINAL_RANGE(&drng)); else opus_projection_decoder_ctl(pd, OPUS_GET_FINAL_RANGE(&drng));
+         g_dec++;
+         if (got != afs) { snprintf(exps, sizeof exps, "%d samples", afs); snprintf(obs, sizeof obs, "multistream decode -> %d (%s)", got, got < 0 ? verr(got) : "count"); viol("ms-decode-count", exps, obs, ctx); }
+         else if (drng != erng) { snprintf(exps, sizeof exps, "decoder final range %08x (encoder's)", erng); snprintf(obs, sizeof obs, "%08x, packet %d bytes", drng, ret); viol("ms-final-range", exps, obs, ctx); }
+         free(pkt);
+      }
+      if (ms) opus_multistream_encoder_destroy(ms);
+      if (pj) opus_projection_encoder_destroy(pj);
+      if (md) opus_multistream_decoder_destroy(md);
+      if (pd) opus_projection_decoder_destroy(pd);
+   }
+}
+
 static void run_ms(uint64_t seed, long sessions)
 {
    vrng r; long s; r.s = seed * 0xA24BAED4963EE407ULL + 99;
@@ -237,6 +363,8 @@ int main(int argc, char **argv)
    vinstall_traps();
    if (argc >= 4 && !strcmp(argv[1], "lock")) run_lock(strtoull(argv[2], 0, 10), atol(argv[3]));
    else if (argc >= 4 && !strcmp(argv[1], "ms")) run_ms(strtoull(argv[2], 0, 10), atol(argv[3]));
+   else if (argc >= 4 && !strcmp(argv[1], "fill")) run_fill(strtoull(argv[2], 0, 10), atoi(argv[3]));
+   else if (argc >= 4 && !strcmp(argv[1], "mssweep")) run_mssweep(strtoull(argv[2], 0, 10), atoi(argv[3]));
    else { fprintf(stderr, "usage: c02_lockstep lock|ms <seed> <sessions>\n"); return 64; }
    printf("# dist modes silk=%ld hybrid=%ld celt=%ld | bw", d_mode[0], d_mode[1], d_mode[2]);
    for (i = 0; i < 5; i++) printf(" %ld", d_bw[i]);
